@@ -204,10 +204,10 @@ def run(ctx):
             ctx.violation("sanitizer report from the daemon under %s" % " ".join(opts), {"report": repo[:3000]}, found_input=False)
     # per-connection: clients with different identities (values >= 2^31 included) being authenticated at the same instant
     import conc
-    probs, rep = conc.identity_race(ctx, exe, nclients=8, rounds=600 if ctx.thorough else 120, nthreads=2)
-    dist["concurrent-identity-rounds"] = 8 * (600 if ctx.thorough else 120)
-    ctx.count(("identity-race", 8))
-    ctx.log("identity race: %d problems" % len(probs))
+    probs, rep, nreq = conc.identity_race(ctx, exe, nclients=12, seconds=20.0 if ctx.thorough else 5.0, nthreads=8)
+    dist["concurrent-identity-requests"] = nreq
+    ctx.count(("identity-race", 12))
+    ctx.log("identity race: %d requests, %d problems" % (nreq, len(probs)))
     for pb in probs:
         fails.append(dict(pb, kind="race"))
     if rep.strip():
